@@ -136,7 +136,9 @@ async def execute(net, hyg, plan):
                 if k is not None and count["n"] == k:
                     name = getattr(getattr(func, "func", func), "__qualname__", "?").replace("AsyncPathIO.", "").replace(".<locals>", "")
                     fired.update(step=s.step_index, op=f"{name}[{plan['raw']}]", n=count["n"])
-                    return ("delay", plan["slow"]) if plan["raw"] == "slow" else ("raise", mk())
+                    if plan["raw"] == "slow":
+                        return ("delay", plan["slow"])
+                    return ("raise_after" if name.endswith("close") else "raise", mk())
                 return None
             loop.exec_hook = exec_hook
         if plan.get("backend_delay"):
